@@ -1,7 +1,8 @@
 (* C05 — row access is exact for every on-disk encoding and chunking.
    Property theorems only: each is closed by `exact <lemma>`. *)
 From Coq Require Import List Arith ZArith Bool Lia.
-From CTM Require Import Base.Sx Model.Sparse Model.Transpose Proofs.SparseP Proofs.SparseBatchP Proofs.SparseCscP.
+From CTM Require Import Base.Sx Model.Sparse Model.Transpose Proofs.SparseP Proofs.SparseBatchP Proofs.SparseCscP Proofs.SparseEncP.
+From CTM Require Model.Stats.
 Import ListNotations.
 
 (* for every number of rows n and chunk size c >= 1 the iterator's chunk list exists
@@ -35,7 +36,13 @@ Theorem c05_iterate_csr_exact : forall m nr nc c,
 Proof. exact iterate_csr_exact. Qed.
 Print Assumptions c05_iterate_csr_exact.
 
-(* the dense iterator *)
+(* the dense iterator.  The content is in the first three conjuncts and the last (the
+   __next__ loop terminates, its chunks tile [0, n_rows) with sizes <= c, the blocks
+   together are the array); the 4th conjunct (each block is the slice r0..r1 of the array)
+   is by construction of the model - iterate_dense is DEFINED as slicing d, as the h5py
+   dataset slice data[r0:r1, :] is; that it is what the real iterator yields is checked by
+   the tie (harness/props/c05.py), not proved here.  For CSR and CSC the same conjunct
+   compares against the independent dense_of / cell and has content. *)
 Theorem c05_iterate_dense_exact : forall (d : dense) nr c,
   length d = nr -> 1 <= c ->
   exists bl, iterate_dense d nr c = Ok bl /\
@@ -79,6 +86,85 @@ Theorem c05_encodings_agree : forall (d : dense) mr mc nr nc c1 c2 c3 E L Lc,
     concat (map snd b1) = d /\ concat (map snd b2) = d /\ concat (map snd b3) = d.
 Proof. exact encodings_agree. Qed.
 Print Assumptions c05_encodings_agree.
+
+(* ---- the last sentence of the property, as far as the models reach: the same matrix d
+   stored as a dense array, as the CSR matrix mr and as the CSC matrix mc (hypotheses as in
+   c05_encodings_agree; c05_example_encodings) is handed to every consumer as the same rows:
+   - chunked iteration with the same chunk size c >= 1 yields the IDENTICAL list of blocks
+     (r0, r1, rows) from the three encodings, for every budget of the CSC conversion;
+   - with any chunk sizes the concatenated row stream is d;
+   - get_batch on an accepted list (non-empty, duplicate-free, in range) returns the same
+     rows in the requested order from all three, and every other list is refused by all
+     three (never answered by one and refused by another). *)
+Theorem c05_encodings_same_rows_for_consumers : forall (d : dense) mr mc nr nc,
+  length d = nr /\
+  wf_csr mr nr nc /\ no_dup_minor mr /\ dense_of mr nr nc = d /\
+  wf_comp mc nr /\ length (ptr mc) = S nc /\ length (dat mc) = length (idx mc) /\
+  no_dup_minor mc /\
+  map (fun r => map (fun j => cell mc j r) (seq 0 nc)) (seq 0 nr) = d ->
+  (forall c E L Lc, 1 <= c -> 1 <= L -> 1 <= Lc ->
+     iterate_dense d nr c = Ok (blocks_of d nr c) /\
+     iterate_csr mr nr nc c = Ok (blocks_of d nr c) /\
+     iterate_csc mc nr nc c E L Lc = Ok (blocks_of d nr c)) /\
+  (forall c, 1 <= c -> concat (map snd (blocks_of d nr c)) = d) /\
+  (forall rows E L Lc, 1 <= L -> 1 <= Lc ->
+     rows <> [] -> NoDup rows -> Forall (fun r => r < nr) rows ->
+     let ans := Ok (map (fun r => nth r d []) rows) in
+     dense_get_batch rows nr d = ans /\ csr_get_batch rows nc mr = ans /\
+     csc_get_batch mc rows nr nc E L Lc = ans) /\
+  (forall rows E L Lc, 1 <= L -> 1 <= Lc ->
+     rows = [] \/ ~ NoDup rows \/ Exists (fun r => nr <= r) rows ->
+     (exists e, dense_get_batch rows nr d = Err e) /\ (exists e, csr_get_batch rows nc mr = Err e) /\
+     (exists e, csc_get_batch mc rows nr nc E L Lc = Err e)).
+Proof. exact encodings_same_rows. Qed.
+Print Assumptions c05_encodings_same_rows_for_consumers.
+
+(* hence whatever the three iterators return, with three chunk sizes that may all differ,
+   every function F of the row stream has the same value on the three encodings *)
+Theorem c05_encodings_same_stream : forall (d : dense) mr mc nr nc c1 c2 c3 E L Lc b1 b2 b3,
+  length d = nr /\
+  wf_csr mr nr nc /\ no_dup_minor mr /\ dense_of mr nr nc = d /\
+  wf_comp mc nr /\ length (ptr mc) = S nc /\ length (dat mc) = length (idx mc) /\
+  no_dup_minor mc /\
+  map (fun r => map (fun j => cell mc j r) (seq 0 nc)) (seq 0 nr) = d ->
+  1 <= c1 -> 1 <= c2 -> 1 <= c3 -> 1 <= L -> 1 <= Lc ->
+  iterate_dense d nr c1 = Ok b1 -> iterate_csr mr nr nc c2 = Ok b2 ->
+  iterate_csc mc nr nc c3 E L Lc = Ok b3 ->
+  concat (map snd b1) = d /\ concat (map snd b2) = d /\ concat (map snd b3) = d /\
+  forall (X : Type) (F : dense -> X),
+    F (concat (map snd b1)) = F (concat (map snd b2)) /\ F (concat (map snd b2)) = F (concat (map snd b3)).
+Proof. exact encodings_same_stream. Qed.
+Print Assumptions c05_encodings_same_stream.
+
+(* ... in particular the reference statistics of C09 (Model/Stats.v, whose input IS the
+   row stream: a file is its gene names and its cells = (name, row) in file order, and
+   the chunks of rows_at_a_time cells its workers read are slices of that list): the
+   summary of the rows read, and the whole table precompute writes for the file - beside
+   any other files, for every rows_at_a_time and worker count - are the same for the three
+   encodings.  What is NOT covered: the mapping of a query file (no model consumes the
+   row stream of a query; C07/C01 start from the loaded matrix), X versus a layer, dtypes
+   and HDF5 chunk layout (checked by the tie only). *)
+Theorem c05_stats_same_for_all_encodings : forall (d : dense) mr mc nr nc c1 c2 c3 E L Lc b1 b2 b3,
+  length d = nr /\
+  wf_csr mr nr nc /\ no_dup_minor mr /\ dense_of mr nr nc = d /\
+  wf_comp mc nr /\ length (ptr mc) = S nc /\ length (dat mc) = length (idx mc) /\
+  no_dup_minor mc /\
+  map (fun r => map (fun j => cell mc j r) (seq 0 nc)) (seq 0 nr) = d ->
+  1 <= c1 -> 1 <= c2 -> 1 <= c3 -> 1 <= L -> 1 <= Lc ->
+  iterate_dense d nr c1 = Ok b1 -> iterate_csr mr nr nc c2 = Ok b2 ->
+  iterate_csc mc nr nc c3 E L Lc = Ok b3 ->
+  forall D,
+  (forall ng,
+     Stats.stats_of_rows D ng (concat (map snd b1)) = Stats.stats_of_rows D ng d /\
+     Stats.stats_of_rows D ng (concat (map snd b2)) = Stats.stats_of_rows D ng d /\
+     Stats.stats_of_rows D ng (concat (map snd b3)) = Stats.stats_of_rows D ng d) /\
+  (forall leaf genes names before after rows_at_a_time n_processors,
+     let file := fun (b : list (nat * nat * dense)) =>
+                   Stats.mk_h5ad genes (combine names (concat (map snd b))) in
+     let run := fun b => Stats.precompute D leaf (before ++ file b :: after) rows_at_a_time n_processors in
+     run b1 = run b2 /\ run b2 = run b3).
+Proof. exact stats_same_for_all_encodings. Qed.
+Print Assumptions c05_stats_same_for_all_encodings.
 
 (* ---- get_batch: an arbitrary list of rows.
    CSRRowIterator.get_batch (= _load_disjoint_csr: argsort the requested rows,
@@ -221,3 +307,50 @@ Example c05_example_get_batch_rejects :
   dense_get_batch [0; 3] 3 (dense_of c05_ex 3 4) = Err EReject /\
   dense_get_batch [] 3 (dense_of c05_ex 3 4) = Err EReject.
 Proof. vm_compute. repeat split; reflexivity. Qed.
+
+(* a 3 x 4 matrix with non-zero entries, an empty row (row 1) AND an empty column
+   (column 2), as a dense array, in CSR and in CSC form: the hypotheses of the CSC main
+   theorem c05_iterate_csc_exact, of c05_encodings_agree and of
+   c05_encodings_same_rows_for_consumers hold on it; with chunk size 2 and the smallest
+   budgets the three iterators yield the same two blocks, and the statistics of the rows
+   are those of the array *)
+Definition c05_d : dense := [[0; 1; 0; 3]; [0; 0; 0; 0]; [8; 9; 0; 11]]%Z.
+Definition c05_csr : comp :=
+  {| ptr := [0; 2; 2; 5]; idx := [1; 3; 0; 1; 3]; dat := [1; 3; 8; 9; 11]%Z |}.
+Definition c05_csc : comp :=
+  {| ptr := [0; 1; 3; 3; 5]; idx := [2; 0; 2; 0; 2]; dat := [8; 1; 9; 3; 11]%Z |}.
+Example c05_example_encodings :
+  (length c05_d = 3 /\
+   wf_csr c05_csr 3 4 /\ no_dup_minor c05_csr /\ dense_of c05_csr 3 4 = c05_d /\
+   wf_comp c05_csc 3 /\ length (ptr c05_csc) = 5 /\ length (dat c05_csc) = length (idx c05_csc) /\
+   no_dup_minor c05_csc /\
+   map (fun r => map (fun j => cell c05_csc j r) (seq 0 4)) (seq 0 3) = c05_d) /\
+  let bl := [(0, 2, [[0; 1; 0; 3]; [0; 0; 0; 0]]%Z); (2, 3, [[8; 9; 0; 11]]%Z)] in
+  iterate_dense c05_d 3 2 = Ok bl /\ iterate_csr c05_csr 3 4 2 = Ok bl /\
+  iterate_csc c05_csc 3 4 2 1 1 1 = Ok bl /\ blocks_of c05_d 3 2 = bl /\
+  Stats.stats_of_rows 8 4 (concat (map snd bl)) =
+  Stats.mk_summary 3 [8; 10; 0; 14]%Z [64; 82; 0; 130]%Z [1; 2; 0; 2]%Z [0; 1; 0; 1]%Z [1; 1; 0; 1]%Z.
+Proof.
+  split; [|vm_compute; repeat split; reflexivity].
+  split; [reflexivity|]. split.
+  { unfold wf_csr, wf_comp, c05_csr; cbn [ptr idx dat hd last length mono].
+    split; [split; [reflexivity | split; [reflexivity | split]] | split; reflexivity].
+    - lia.
+    - repeat (apply Forall_cons; [lia|]). apply Forall_nil. }
+  split.
+  { intros j Hj. unfold c05_csr in *; cbn [ptr idx dat length] in *.
+    assert (D : j = 0 \/ j = 1 \/ j = 2) by lia.
+    destruct D as [ -> | [ -> | -> ] ]; vm_compute;
+      repeat (apply NoDup_cons; [cbn [In]; lia|]); apply NoDup_nil. }
+  split; [vm_compute; reflexivity|]. split.
+  { unfold wf_comp, c05_csc; cbn [ptr idx dat hd last length mono].
+    split; [reflexivity | split; [reflexivity | split]].
+    - lia.
+    - repeat (apply Forall_cons; [lia|]). apply Forall_nil. }
+  split; [reflexivity|]. split; [reflexivity|]. split.
+  { intros j Hj. unfold c05_csc in *; cbn [ptr idx dat length] in *.
+    assert (D : j = 0 \/ j = 1 \/ j = 2 \/ j = 3) by lia.
+    destruct D as [ -> | [ -> | [ -> | -> ] ] ]; vm_compute;
+      repeat (apply NoDup_cons; [cbn [In]; lia|]); apply NoDup_nil. }
+  vm_compute. reflexivity.
+Qed.
